@@ -38,19 +38,19 @@ type spStep struct {
 }
 
 type spArgs struct {
-	C     int    `json:"c"`
-	Cb    []int  `json:"cb"`
-	ID    int    `json:"id"`
-	Acct  int    `json:"acct"`
-	Scope string `json:"scope"`
-	Mc    int    `json:"mc"`
-	K     int    `json:"k"`
-	Ans   string `json:"ans"`
-	N     int    `json:"n"`
-	Ins   []int  `json:"ins"`
-	Elig  []int  `json:"elig"`
-	Sel   []int  `json:"sel"`
-	Forgotten []int `json:"forgotten"`
+	C         int    `json:"c"`
+	Cb        []int  `json:"cb"`
+	ID        int    `json:"id"`
+	Acct      int    `json:"acct"`
+	Scope     string `json:"scope"`
+	Mc        int    `json:"mc"`
+	K         int    `json:"k"`
+	Ans       string `json:"ans"`
+	N         int    `json:"n"`
+	Ins       []int  `json:"ins"`
+	Elig      []int  `json:"elig"`
+	Sel       []int  `json:"sel"`
+	Forgotten []int  `json:"forgotten"`
 	CScope    string `json:"cscope"`
 }
 
@@ -68,26 +68,26 @@ type spAcctBal struct {
 }
 
 type spObs struct {
-	AcctBal     map[string]spAcctBal `json:"acctBal"`
+	AcctBal     map[string]spAcctBal                   `json:"acctBal"`
 	ScopeBal    map[string]map[string]map[string][]int `json:"scopeBal"`
-	Tip         int           `json:"tip"`
-	St          []interface{} `json:"st"`
-	SpentBy     []int         `json:"spentBy"`
-	Spendable   []int         `json:"spendable"`
-	Bal         map[string][]int `json:"bal"`
-	Sends       []spSend      `json:"sends"`
-	UnconfSends []int         `json:"unconfSends"`
-	Locked      []int         `json:"locked"`
-	Leased      []int         `json:"leased"`
+	Tip         int                                    `json:"tip"`
+	St          []interface{}                          `json:"st"`
+	SpentBy     []int                                  `json:"spentBy"`
+	Spendable   []int                                  `json:"spendable"`
+	Bal         map[string][]int                       `json:"bal"`
+	Sends       []spSend                               `json:"sends"`
+	UnconfSends []int                                  `json:"unconfSends"`
+	Locked      []int                                  `json:"locked"`
+	Leased      []int                                  `json:"leased"`
 }
 
 type spTrace struct {
-	Mat   int             `json:"mat"`
-	NBase int             `json:"nbase"`
-	MaxSends int          `json:"maxsends"`
-	Steps []spStep        `json:"steps"`
-	Pre   json.RawMessage `json:"pre"`
-	Exp   json.RawMessage `json:"exp"`
+	Mat      int             `json:"mat"`
+	NBase    int             `json:"nbase"`
+	MaxSends int             `json:"maxsends"`
+	Steps    []spStep        `json:"steps"`
+	Pre      json.RawMessage `json:"pre"`
+	Exp      json.RawMessage `json:"exp"`
 }
 
 type baseAttr struct {
@@ -141,9 +141,9 @@ type spWorld struct {
 	coinOf   map[wire.OutPoint]int
 	sendTx   map[int]*wire.MsgTx // send number -> created tx
 	sendAcct map[int]int
-	maxSends int                 // from the length of the model's coin vector: nbase + 2 * maxSends
-	selfScr  map[int][]byte      // send number -> script of its payment to the wallet itself
-	lastErr  error // result of the last SendOutputs / SendOutputsWithInput call
+	maxSends int            // from the length of the model's coin vector: nbase + 2 * maxSends
+	selfScr  map[int][]byte // send number -> script of its payment to the wallet itself
+	lastErr  error          // result of the last SendOutputs / SendOutputsWithInput call
 	called   bool
 	foreign  []byte
 	diffs    [][4]interface{}
